@@ -2268,7 +2268,11 @@ where
         let end = self.read.index();
         if should_replace && start < end {
             let slice = self.read.slice_unchecked(start, end);
-            *schema = crate::from_slice(slice)?;
+            // the error position is relative to the slice, locate it in the whole json
+            *schema = crate::from_slice(slice).map_err(|err| {
+                let index = start + err.offset();
+                err.relocate(self.read.as_u8_slice(), index)
+            })?;
         }
         Ok(())
     }
